@@ -31,6 +31,7 @@ pub fn profile() -> Profile {
     p.io_structs = false;
     p.use_all_resources = true;
     p.unused_structs = (0, 0);
+    p.keyword_names = 2;
     p
 }
 
